@@ -51,6 +51,8 @@ def gen_cases(tier, seed):
     n = 20000 if tier == "thorough" else 2500
     cases = [{"k": "corpus", "i": i} for i in range(n)]
     cases += [{"k": "parse", "i": i, "own": i % 4 == 3} for i in range(1500 if tier == "thorough" else 300)]
+    lens = sorted(set(list(range(14, 300, 1 if tier == "thorough" else 5)) + [31, 32, 33, 63, 64, 65, 100, 127, 128, 129, 200, 255, 256, 257, 299, 300, 512, 1000]))
+    cases += [{"k": "parse", "i": i, "own": False, "pad": n_} for i, n_ in enumerate(lens)]
     if tier == "thorough":
         cases.append({"k": "retrain"})
     return cases
@@ -138,6 +140,14 @@ def run_case(case, ctx):
         target, ts, tests = corpus[(case["i"] * 5) % len(corpus)]
         ts = datetime.strptime(ts, "%Y-%m-%dT%H:%M")
         text = tests[case["i"] % len(tests)]
+        if case.get("pad") is not None:
+            # the covered share of the text for every text length: the expression padded with inert words to exactly `pad`
+            # characters (partial coverage; lengths around powers of two and in the hundreds included)
+            base = ["tomorrow 5pm", "am 5. um 8 uhr", "friday 10-6"][case["i"] % 3]
+            filler = "zzz qqq lorem kwyjibo xq "
+            text = (base + " " + filler * 40)[:case["pad"]].rstrip()
+            text = text + "q" * (case["pad"] - len(text))
+            ts = datetime(2021, 3, 10, 12, 43)
         if case["own"]:
             docs, ys, _ = _rand_corpus(r)
             docs = [[str(r.choice([100, 104, 108, 128, "ruleHHMM", "ruleDOM1", "ruleNamedHour"])) for _ in d] or ["128"] for d in docs]
